@@ -365,7 +365,21 @@ where
                 self.put(*h2, v);
                 "U".into()
             }
-            Cmd::Join(_) => "U".into(),
+            Cmd::Join(j) => {
+                // joining synchronises: everything the joined thread had seen is visible from now on
+                if let Some(me) = rt::vtid() {
+                    rt::with_world(|w| {
+                        let theirs: Vec<(usize, usize)> = w.view.iter().filter(|((t, _), _)| *t == *j).map(|((_, a), &i)| (*a, i)).collect();
+                        for (a, i) in theirs {
+                            let e = w.view.entry((me, a)).or_insert(0);
+                            if *e < i {
+                                *e = i;
+                            }
+                        }
+                    });
+                }
+                "U".into()
+            }
             Cmd::SetGen(g) => {
                 arc_swap::verif::set_generation(*g);
                 "U".into()
@@ -833,11 +847,16 @@ where
                             0
                         }
                     }
-                    Some(Pending::Acc { stale: Some(c), .. }) if policy == "stale" => {
-                        // answer the Relaxed first read with a value the storage held earlier
-                        match w.store_hist.get(*c) {
-                            Some(h) if !h.is_empty() && rng.below(100) < 60 => 2 + h[rng.below(h.len() as u64) as usize] as u64,
-                            _ => 0,
+                    Some(Pending::Acc { stale: Some(site), .. }) if policy == "stale" || policy == "stale2" => {
+                        // answer the load with a value the location held earlier
+                        match *site {
+                            rt::StaleSite::First(c) => match w.store_hist.get(c) {
+                                Some(h) if !h.is_empty() && rng.below(100) < 60 => 2 + h[rng.below(h.len() as u64) as usize] as u64,
+                                _ => 0,
+                            },
+                            _ if policy != "stale2" => 0,
+                            rt::StaleSite::Scan(a) | rt::StaleSite::InUse(a) => stale_choice(w, t, a, matches!(*site, rt::StaleSite::Scan(_)), &mut rng),
+                            rt::StaleSite::Head => stale_choice(w, t, w.head_addr, false, &mut rng),
                         }
                     }
                     Some(Pending::Alloc) => {
@@ -864,6 +883,30 @@ where
         step_no += 1;
         drop(g);
         rt::CV.notify_all();
+    }
+}
+
+/// A stale value for a load of thread `t` at address `a`: one of the writes between the newest
+/// this thread has seen (read, or written itself) and the latest one, as the model's value + 2;
+/// 0 = read the memory.  A thread that never touched the location may see any earlier write
+/// (the look of check_cooldown at another thread's node).  `scan`: the slot scan never sees a
+/// slot empty that is not (the empty marker is only written over a value of the owner).
+fn stale_choice(w: &rt::World, t: usize, a: usize, scan: bool, rng: &mut Rng) -> u64 {
+    let h = match w.loc_hist.get(&a) {
+        Some(h) if h.len() >= 2 => h,
+        _ => return 0,
+    };
+    let lo = match w.view.get(&(t, a)) {
+        Some(&i) => i,
+        None if scan => return 0,
+        None => 0,
+    };
+    let cur = h[h.len() - 1].1;
+    let cands: Vec<u64> = (lo..h.len() - 1).map(|i| h[i].1).filter(|&v| v != u64::MAX && v != cur && !(scan && v == 3)).collect();
+    if cands.is_empty() || rng.below(100) >= 60 {
+        0
+    } else {
+        2 + cands[rng.below(cands.len() as u64) as usize]
     }
 }
 
